@@ -20,7 +20,9 @@ package writer
 import (
 	"errors"
 	"fmt"
+	"math"
 	"regexp"
+	"strconv"
 
 	. "github.com/siglens/siglens/pkg/segment/structs"
 	. "github.com/siglens/siglens/pkg/segment/utils"
@@ -344,7 +346,9 @@ func getNumberRecDte(rec []byte, recDte *DtypeEnclosure) (bool, error) {
 	case VALTYPE_ENC_BOOL[0]:
 		return false, nil
 	case VALTYPE_ENC_SMALL_STRING[0]:
-		return false, nil
+		// A number written as a string (also the numbers of a block whose
+		// column was consolidated to strings) is compared by value.
+		return getNumberFromStringRec(rec, recDte), nil
 	case VALTYPE_ENC_INT8[0]:
 		recDte.Dtype = SS_DT_SIGNED_NUM
 		recDte.SignedVal = int64(rec[1])
@@ -379,6 +383,27 @@ func getNumberRecDte(rec []byte, recDte *DtypeEnclosure) (bool, error) {
 		return false, errors.New("fopOnNumber: invalid rec type")
 	}
 	return true, nil
+}
+
+// Parses a VALTYPE_ENC_SMALL_STRING record as a number. Returns false if the
+// string is not a number.
+func getNumberFromStringRec(rec []byte, recDte *DtypeEnclosure) bool {
+	const sOff int = 3
+	if len(rec) <= sOff {
+		return false
+	}
+	str := string(rec[sOff:])
+	if intVal, err := strconv.ParseInt(str, 10, 64); err == nil {
+		recDte.Dtype = SS_DT_SIGNED_NUM
+		recDte.SignedVal = intVal
+		return true
+	}
+	if floatVal, err := strconv.ParseFloat(str, 64); err == nil && !math.IsNaN(floatVal) && !math.IsInf(floatVal, 0) {
+		recDte.Dtype = SS_DT_FLOAT
+		recDte.FloatVal = floatVal
+		return true
+	}
+	return false
 }
 
 func fopOnNumber(rec []byte, qValDte *DtypeEnclosure,
